@@ -17,3 +17,4 @@ OBLIGATIONS = [
   O('C09.b-getnextlocation', 'rect_units.cpp', 'harness_getnextlocation', replace=ADD, unwind=10, bound='3-vertex polyline, any start index and start location', desc='skipped vertices stay in the start region; inside vertices are emitted in input order; the stop vertex lies in the named region'),
   O('C09.b-getlocation', 'rect_units.cpp', 'harness_getlocation', bound='all rectangles/points up to 2^40', desc='boundary points are classified as on the rectangle (kept), others by region'),
 ]
+OBLIGATIONS.append(O('C09.c-crossproduct-no-overflow', 'c18_segpt.cpp', 'harness_crossproduct_no_overflow_40', nsw=True, unwind=4, timeout=300, bound='three points with |coordinates| <= 2^40', desc='CrossProduct / DotProduct (the sign tests of GetSegmentIntersection) do no signed 64-bit arithmetic that can overflow in the rectangle-clipping coordinate range'))
